@@ -93,6 +93,10 @@ func (ucr *UnsignedChunkReader) Read(p []byte) (int, error) {
 		var buf bytes.Buffer
 		_, err = io.CopyN(&buf, rdr, chunkSize)
 		if err != nil {
+			if err == io.EOF {
+				// the stream ended inside the chunk
+				return 0, io.ErrUnexpectedEOF
+			}
 			return 0, err
 		}
 		payload := buf.Bytes()
@@ -118,6 +122,13 @@ func (ucr *UnsignedChunkReader) Read(p []byte) (int, error) {
 
 	// Read and validate trailers
 	if err := ucr.readTrailer(); err != nil {
+		return 0, err
+	}
+
+	// The wrapped auth reader delivers its verdict together with the
+	// final io.EOF of the underlying stream, so the stream must not be
+	// ended before the underlying reader has been read to its end
+	if _, err := io.Copy(io.Discard, ucr.reader); err != nil {
 		return 0, err
 	}
 
